@@ -380,11 +380,27 @@ Section TlruBridge.
     all: crush; intros; clean; try discriminate; apply ord_remove_len; auto.
   Qed.
 
+  (* one turn of a `while (c) { body }` loop with break: test, then body; (false, b) = the loop is left in state b.
+     whileB only ever runs C and B in this combination, so a loop is characterised by what `turn C B` computes —
+     whether the source tests everything in the loop condition, or tests part of it in the body and breaks *)
+  Definition turn {St} (c : St -> res bool) (f : St -> res (bool * St)) (b : St) : res (bool * St) :=
+    do t <- c b; if t then f b else Ok (false, b).
+  Lemma whileB_turn {St} n c f (b : St) :
+    whileB (S n) c f b = (do r <- turn c f b; let '(go, b1) := r in if go then whileB n c f b1 else Ok b1).
+  Proof. cbn [whileB]. unfold turn. destruct (c b) as [[|]|]; cbn [bind]; auto. Qed.
+
+  (* what one turn of the loop of clean_expired_values computes (up to the reason for UB): nothing in use: stop; else
+     look at the head of m_ttl_list: expired: erase the element it names and go on; alive: stop *)
+  Definition clean_turn (now : Z) (s : ttll K V) : res (bool * ttll K V) :=
+    if 0 <? tt_used s then
+      do z <- mm_it_first (tt_ord s) (mm_begin (tt_ord s));
+      if (z <=? now)%Z
+      then (do n <- mm_it_second (tt_ord s) (mm_begin (tt_ord s)); do s' <- g_do_erase s n; Ok (true, s'))
+      else Ok (false, s)
+    else Ok (false, s).
+
   Lemma g_clean_loop now C B :
-    (forall s : ttll K V, C s = (do c <- (if 0 <? tt_used s
-                                   then (do z <- mm_it_first (tt_ord s) (mm_begin (tt_ord s)); Ok (z <=? now)%Z)
-                                   else Ok false); Ok c)) ->
-    (forall s : ttll K V, B s = (do n <- mm_it_second (tt_ord s) (mm_begin (tt_ord s)); do s' <- g_do_erase s n; Ok (true, s'))) ->
+    (forall s : ttll K V, req (turn C B s) (clean_turn now s)) ->
     forall fuel fuel' s n, fuel = fuel' ->
       match whileB fuel C B s, tt_clean_loop false fuel' s now n with
       | Ok s1, Ok (s2, n2) => s1 = s2 /\ List.length (tt_ord s) + n = List.length (tt_ord s2) + n2
@@ -392,30 +408,36 @@ Section TlruBridge.
       | _, _ => False
       end.
   Proof.
-    intros HC HB fuel fuel' s n <-. revert s n. induction fuel as [|f IH]; intros s n; simpl; auto.
-    rewrite HC, HB.
-    destruct (0 <? tt_used s); cbn [bind]; [|auto].
-    destruct (tt_ord s) as [|[z idx] r] eqn:O; [simpl; auto|].
-    unfold mm_it_first, mm_it_second. rewrite mm_begin_cons. cbn [bind fst snd].
-    destruct (z <=? now)%Z; cbn [bind]; [|rewrite O; auto].
+    intros HT fuel fuel' s n <-. revert s n. induction fuel as [|f IH]; intros s n; [simpl; auto|].
+    rewrite whileB_turn. cbn [tt_clean_loop].
+    pose proof (HT s) as Ht. unfold clean_turn in Ht.
+    destruct (0 <? tt_used s).
+    2:{ apply req_ok in Ht. rewrite Ht. cbn [bind]. auto. }
+    destruct (tt_ord s) as [|[z idx] r] eqn:O.
+    { cbn in Ht. destruct (turn C B s); simpl in Ht; [contradiction|simpl; auto]. }
+    unfold mm_it_first, mm_it_second in Ht. rewrite !mm_begin_cons in Ht. cbn [bind fst snd] in Ht.
+    destruct (z <=? now)%Z; cbn [bind] in *.
+    2:{ apply req_ok in Ht. rewrite Ht. cbn [bind]. rewrite O. auto. }
     pose proof (g_do_erase_ok s idx) as P. pose proof (tt_do_erase_ord_len s) as Q.
-    destruct (g_do_erase s idx) as [s1|], (tt_do_erase s idx) as [s2|] eqn:L; simpl in P; try contradiction; cbn [bind]; auto.
-    subst s2. specialize (Q s1 idx L). specialize (IH s1 (S n)).
+    destruct (g_do_erase s idx) as [s1|], (tt_do_erase s idx) as [s2|] eqn:L; simpl in P; try contradiction; cbn [bind] in *.
+    2:{ destruct (turn C B s); simpl in Ht; [contradiction|simpl; auto]. }
+    subst s2. apply req_ok in Ht. rewrite Ht. cbn [bind].
+    specialize (Q s1 idx L). specialize (IH s1 (S n)).
     destruct (whileB f C B s1) as [s3|], (tt_clean_loop false f s1 now (S n)) as [[s4 n4]|]; auto.
     destruct IH as [-> IH]. split; auto. rewrite O in Q. simpl in Q. simpl. lia.
   Qed.
 
   Lemma g_clean_ok (s : ttll K V) now : req (g_clean_expired_values now s) (tt_clean false s now).
   Proof.
-    unfold g_clean_expired_values, tt_clean.
+    unfold g_clean_expired_values, tt_clean. cbv zeta.
     match goal with |- req (bind (whileB ?f ?C ?B s) _) _ =>
-      assert (HC : forall s : ttll K V, C s = (do c <- (if 0 <? tt_used s
-                                   then (do z <- mm_it_first (tt_ord s) (mm_begin (tt_ord s)); Ok (z <=? now)%Z)
-                                   else Ok false); Ok c));
-      [ intros s0; cbv beta;
-        match goal with |- bind (if ?c then _ else _) _ = bind (if ?d then _ else _) _ =>
-          first [ constr_eq c d | replace c with d by barith ] end; reflexivity
-      | pose proof (g_clean_loop now C B HC (fun _ => eq_refl) f (S (tt_used s)) s 0 ltac:(lia)) as G; clear HC ] end.
+      assert (HT : forall s0 : ttll K V, req (turn C B s0) (clean_turn now s0));
+      [ | pose proof (g_clean_loop now C B HT f (S (tt_used s)) s 0 ltac:(lia)) as G; clear HT ] end.
+    { clear. intros s0. unfold turn, clean_turn. cbv beta iota zeta.
+      ncases; cbn [bind]; try apply req_refl.
+      destruct (tt_ord s0) as [|[z idx] r] eqn:O; [simpl; auto|].
+      unfold mm_it_first, mm_it_second. rewrite !mm_begin_cons. cbn [bind fst snd].
+      zcases; cbn [bind]; rewrite ?mm_begin_cons; cbn [bind fst snd]; apply req_refl. }
     revert G.
     destruct (whileB _ _ _ s) as [s1|], (tt_clean_loop false (S (tt_used s)) s now 0) as [[s2 n2]|]; cbn [bind]; intros G;
       try contradiction; auto.
@@ -501,8 +523,30 @@ Section TlruBridge.
   (* ---- the constructor, translated (member initialisers + body): it builds the literal machine's initial state,
      so the whole-history theorem starts from what the source constructs ---- *)
   (* tt_ttl is the uniform TTL of utlru_cache; tlru_cache has no such member and never reads it *)
+  (* the loops a constructor may number the nodes of m_lru_list with, whatever their text: a fold over n nodes (or over
+     0 .. n-1) one turn of which writes / appends the counter and increments it, resp. appends the loop index *)
+  Lemma ctor_fill_counter (F : list nat * nat -> nat -> list nat * nat) :
+    (forall l i x, F (l, i) x = (l ++ [i], S i)) ->
+    forall (d : list nat) l i, fold_left F d (l, i) = (l ++ seq i (List.length d), i + List.length d).
+  Proof.
+    intros HF. induction d as [|x d IH]; intros l i; cbn [fold_left List.length seq].
+    - rewrite app_nil_r, Nat.add_0_r. reflexivity.
+    - rewrite HF, IH. rewrite <- app_assoc. cbn [app]. f_equal. lia.
+  Qed.
+  Lemma ctor_fill_index (F : list nat -> nat -> list nat) :
+    (forall l i, F l i = l ++ [i]) -> forall (d : list nat) l, fold_left F d l = l ++ d.
+  Proof.
+    intros HF. induction d as [|x d IH]; intros l; cbn [fold_left].
+    - rewrite app_nil_r. reflexivity.
+    - rewrite HF, IH. rewrite <- app_assoc. reflexivity.
+  Qed.
+  Ltac ctor_loops :=
+    repeat match goal with
+           | |- context [fold_left ?F ?d (?l, ?i)] => rewrite (ctor_fill_counter F (fun l0 i0 x0 => eq_refl) d l i), ?seq_length
+           | |- context [fold_left ?F ?d ?l] => rewrite (ctor_fill_index F (fun l0 i0 => eq_refl) d l)
+           end.
   Lemma g_init_ok (cap : nat) : (g_init cap : ttll K V) = ttll_init cap 0.
-  Proof. reflexivity. Qed.
+  Proof. unfold g_init. cbv zeta. ctor_loops. reflexivity. Qed.
   Theorem generated_tlru_constructed_no_UB_on_any_history : forall cap (h : list (ev K V)),
       1 <= cap -> mono_from 0 h ->
       exists l', run_res g_step (g_init cap) h = Ok (l', snd (run tl_step (tl_init false cap 0) h)) /\
